@@ -263,3 +263,74 @@ def run_cases(ctx, cases, impls, tag, shard=4, with_resid=True, timeout=900):
             for k, v in zip(keep, vals):
                 results[k] = v
     return results
+
+
+# ------------------------------------------------------------------------------ case generation
+TABLE_KINDS = ["shipped", "haynesville", "ideal", "liquid", "falling", "kinked", "random"]
+
+
+def make_table(kind, rng, quick=True):
+    if kind == "shipped":
+        return shipped_gas(stride=20 if quick else 4)
+    if kind == "haynesville":
+        return shipped_haynesville(stride=25 if quick else 5)
+    return synth_table(kind, n=int(rng.integers(8, 40 if quick else 120)), rng=rng)
+
+
+def gen_cases(rng, n, quick=True, kinds=("single", "ideal"), nx_choices=None, nt_max=None, sched_prob=0.4):
+    """Structured, mostly-valid cases; every random choice comes from rng."""
+    cases = []
+    nx_choices = nx_choices or ([3, 5, 10, 30, 60] if quick else [3, 4, 10, 30, 80, 150, 400])
+    nt_max = nt_max or (30 if quick else 120)
+    grids = ["uniform", "quadratic", "geometric", "random", "huge"]
+    for k in range(n):
+        kind = kinds[k % len(kinds)]
+        nx = int(nx_choices[int(rng.integers(0, len(nx_choices)))])
+        nt = int(rng.integers(3, nt_max))
+        grid = grids[k // len(kinds) % len(grids)]
+        tmax = float(10 ** rng.uniform(-2, 1))
+        times = time_grid(grid, nt, tmax, rng)
+        if kind == "ideal":
+            pi = float(rng.uniform(1000, 12000))
+            ratio = float(rng.choice([0.0125, 0.3, 0.875, 0.99875, rng.uniform(0.01, 0.99)]))
+            cases.append(dict(kind="ideal", pi=pi, pf=pi * ratio, nx=max(nx, 3), times=times, grid=grid))
+            continue
+        tk = TABLE_KINDS[k // 2 % len(TABLE_KINDS)]
+        tb = make_table(tk, rng, quick)
+        p = tb["pressure"]
+        on_node = rng.random() < 0.3
+        pi = float(p[int(rng.integers(len(p) // 2, len(p)))]) if on_node else float(rng.uniform(p[len(p) // 2], p[-1]))
+        ratio = float(rng.choice([0.0125, 0.3, 0.875, 0.99875, rng.uniform(0.01, 0.99)]))
+        pf = max(float(p[0]), pi * ratio)
+        case = dict(kind="single", table=tb, table_kind=tk, pi=pi, pf=pf, nx=nx, times=times, grid=grid)
+        if rng.random() < sched_prob:
+            style = rng.choice(["stepdown", "random", "constant"])
+            if style == "stepdown":
+                sched = np.sort(rng.uniform(pf, pi, nt))[::-1].copy()
+            elif style == "random":
+                sched = rng.uniform(pf, pi, nt)
+            else:
+                sched = np.full(nt, pf)
+            case["sched"] = [float(x) for x in sched]
+            case["sched_style"] = str(style)
+        cases.append(case)
+    return cases
+
+
+def describe(case):
+    d = {k: v for k, v in case.items() if k not in ("table", "times", "sched")}
+    d["nt"] = len(case["times"])
+    d["t_end"] = float(case["times"][-1])
+    if "table" in case:
+        d["table_rows"] = len(case["table"]["pressure"])
+    if "sched" in case:
+        d["sched_head"] = case["sched"][:3]
+    return d
+
+
+def replay_payload(case):
+    c = dict(case)
+    c["times"] = [float(x) for x in case["times"]]
+    if "table" in c:
+        c["table"] = {k: [float(x) for x in v] for k, v in c["table"].items()}
+    return c
